@@ -242,9 +242,10 @@ impl Sexa {
         let d: f64 = self.d.parse::<u64>().unwrap() as f64;
         let m: f64 = self.m.parse::<u32>().unwrap() as f64;
         let mut s: f64 = self.s.as_ref().map(|x| x.parse::<u32>().unwrap() as f64).unwrap_or(0.0);
-        if let Some(f) = &self.frac {
-            // seconds = whole seconds + the fraction ("0.<digits>", correctly rounded)
-            s += format!("0.{f}").parse::<f64>().unwrap();
+        if let (Some(whole), Some(f)) = (&self.s, &self.frac) {
+            // [IT] `53.2 / 3600.0`: the seconds field `SS.fff` is one decimal literal, correctly
+            // rounded (not whole seconds + fraction, which rounds twice)
+            s = format!("{whole}.{f}").parse::<f64>().unwrap();
         }
         (d, m, s)
     }
@@ -2283,6 +2284,32 @@ fn generate(ctx: &mut Ctx<C19>) {
         .prop_map(|(e, d, tag, (style, pos, target))| mk(Body::Bad(e, d), tag, style, pos, target));
     ctx.run_strategy("expr-damaged", 4, ctx.tier.pick(6_000, 120_000), &strat, nt.clone());
     flush(ctx, &st, "expr-damaged");
+
+    // --- sexagesimal seconds: every SS.f / SS.ff / SS.fff ----------------------------------------
+    // (the seconds field is one decimal literal; whole seconds + fraction rounds twice and is off
+    // by one ulp for about 1 % of these)
+    {
+        let mut idx = 0u64;
+        let stride = ctx.tier.pick(3u64, 1u64);
+        for ss in 0..60u32 {
+            for digits in 1..=3usize {
+                for f in 0..10u32.pow(digits as u32) {
+                    idx += 1;
+                    if !ctx.mine(idx) || idx % stride != 0 {
+                        continue;
+                    }
+                    let sx = Sexa { d: ["0", "1", "12"][(idx % 3) as usize].into(), m: ["0", "30"][(idx % 2) as usize].into(), s: Some(format!("{ss}")), frac: Some(format!("{f:0w$}", w = digits)) };
+                    let e = single(Prim::Sexa(sx));
+                    let (tag, wrap_deg) = [(Tag::None, false), (Tag::Degrees, false), (Tag::Radians, false), (Tag::None, true)][((idx / 6) % 4) as usize];
+                    let e = if wrap_deg { single(Prim::Func(true, 0, Box::new(e), 0)) } else { e };
+                    let c = mk(Body::Expr(e, 0), tag, Style::Plain, Pos::Root, Target::F64);
+                    ctx.case("sexagesimal-seconds-sweep", &c, true);
+                }
+            }
+        }
+        ctx.subspace("seconds 0..59 x every fraction of 1-3 digits (quick: every third) x degrees / minutes rotation x {untagged, !degrees, !radians, deg(..)}", idx, ctx.tier.pick(false, true));
+    }
+    flush(ctx, &st, "sexagesimal-seconds-sweep");
 
     // --- exhaustive three-operand expressions ------------------------------------------------
     let operands: Vec<Prim> = vec![
